@@ -503,6 +503,14 @@ fn sanitize_destination_path(dest: &Path) -> Result<&Path, std::io::Error> {
         })
 }
 
+/// returns true if the path consists only of normal components
+/// (so no root, prefix or parent dir (..) components) and thus cannot lead outside
+/// of the directory it's joined to.
+fn is_plain_relative_path(path: &str) -> bool {
+    let mut components = Path::new(path).components();
+    components.all(|c| matches!(c, std::path::Component::Normal(_)))
+}
+
 /// extract all files from the archive to a target directory
 ///
 /// # Arguments
@@ -535,7 +543,9 @@ pub fn extract_to_dir<RS: Read + Seek + HasLength>(
                 &file
             };
             let target_file = target_dir.join(new_file_name);
-            if !target_file.exists() {
+            // names that lead (or might lead) outside of the target dir are never treated as
+            // already extracted. (the extraction below ignores the ones leading outside)
+            if !is_plain_relative_path(new_file_name) || !target_file.exists() {
                 files_filter.push(file); // need the unmapped name here
             } else {
                 extracted.push(new_file_name.into());
